@@ -37,3 +37,6 @@ def run(ctx):
     spaces.localised_inherit(ctx)
     spaces.normal_multipliers(ctx)  # the double layer potential integrates against normal * multiplier
     rules.factory_sites(ctx, "potential", only_files=("laplace.py",))
+    from .. import state as _state
+
+    _state.process_state(ctx)  # spaces and their localised companions are built per space, not served from a module-level table under an incomplete key
